@@ -14,6 +14,10 @@ StepBin(e) ==
        /\ Report(e.case, BinFails(it[1], it[2], it[3], it[4], it[5]), it)
        /\ DriftReport(e.case, it[3] = Intersection(it[1], it[2]) /\ it[4] = Intersection(it[2], it[1]) /\ it[5] = Envelope(it[1], it[2]),
                       "intersection_or_envelope_transcription", it)
+StepFarBin(e) ==
+  /\ e.ev = "farbin"
+  /\ \A i \in 1..Len(e.items) :
+       LET it == e.items[i] IN Report(e.case, FarFails(it[1], it[2], it[3], it[4], it[5]), it)
 StepUn(e) ==
   /\ e.ev = "un"
   /\ Report(e.case, UnFails(e.r, e), [r |-> e.r])
@@ -29,7 +33,7 @@ StepUn(e) ==
        "rectangle_method_transcription", [r |-> e.r])
 
 Next == /\ l <= NRec
-        /\ LET e == Rec[l] IN StepCase(e) \/ StepBin(e) \/ StepUn(e)
+        /\ LET e == Rec[l] IN StepCase(e) \/ StepBin(e) \/ StepFarBin(e) \/ StepUn(e)
         /\ l' = l + 1
 Spec == Init /\ [][Next]_l
 
